@@ -41,6 +41,9 @@ type Solver struct {
 func NewSolver(bin string, timeoutMs int, keepLog bool) (*Solver, error) {
 	s := &Solver{bin: bin, timeoutMs: timeoutMs, keepLog: keepLog}
 	switch {
+	case bin == "cvc5-int":
+		s.bin = "cvc5"
+		s.args = []string{"--incremental", "--lang=smt2", "--produce-models", "--solve-bv-as-int=sum", fmt.Sprintf("--tlimit-per=%d", timeoutMs)}
 	case strings.Contains(bin, "cvc5"):
 		s.args = []string{"--incremental", "--lang=smt2", "--produce-models", fmt.Sprintf("--tlimit-per=%d", timeoutMs)}
 	default:
@@ -97,6 +100,8 @@ func (s *Solver) restart() {
 	s.Close()
 	s.start()
 }
+
+func (s *Solver) in0() {}
 
 func (s *Solver) send(line string) {
 	io.WriteString(s.in, line)
@@ -231,7 +236,12 @@ func (s *Solver) Check(extra *Term, wantModel bool) (Res, map[string]*big.Int) {
 	}
 	s.send("(check-sat)")
 	s.send("(echo \"" + doneMark + "\")")
+	s.in0()
+	// watchdog: some tactics ignore the soft timeout; kill the solver then.
+	proc := s.cmd.Process
+	wd := time.AfterFunc(time.Duration(s.timeoutMs)*time.Millisecond*3/2+3*time.Second, func() { proc.Kill() })
 	lines, err := s.readUntilDone()
+	wd.Stop()
 	if err != nil {
 		s.Errors++
 		s.restart()
@@ -374,15 +384,46 @@ func tokenize(s string) []string {
 	return toks
 }
 
+// RunScriptModel decides a standalone script and returns variable values on sat.
+func RunScriptModel(bin string, script string, vars []*Term, timeoutMs int) (Res, map[string]*big.Int) {
+	var sb strings.Builder
+	sb.WriteString(script)
+	if len(vars) > 0 {
+		sb.WriteString("(get-value (")
+		for _, v := range vars {
+			sb.WriteString(v.Name + " ")
+		}
+		sb.WriteString("))\n")
+	}
+	res, out := runScriptOut(bin, sb.String(), timeoutMs)
+	if res != Sat {
+		return res, nil
+	}
+	i := strings.Index(out, "((")
+	if i < 0 {
+		return res, map[string]*big.Int{}
+	}
+	return res, parseModel(out[i:])
+}
+
 // RunScript decides a standalone script with the given solver binary.
 func RunScript(bin string, script string, timeoutMs int) Res {
+	r, _ := runScriptOut(bin, script, timeoutMs)
+	return r
+}
+
+func runScriptOut(bin string, script string, timeoutMs int) (Res, string) {
 	var args []string
 	switch {
+	case bin == "cvc5-int":
+		bin = "cvc5"
+		args = []string{"--lang=smt2", "--produce-models", "--solve-bv-as-int=sum", fmt.Sprintf("--tlimit=%d", timeoutMs)}
+		script = "(set-logic ALL)\n" + script
 	case strings.Contains(bin, "cvc5"):
-		args = []string{"--lang=smt2", fmt.Sprintf("--tlimit=%d", timeoutMs)}
+		args = []string{"--lang=smt2", "--produce-models", fmt.Sprintf("--tlimit=%d", timeoutMs)}
 		script = "(set-logic ALL)\n" + script
 	default:
-		args = []string{"-in", fmt.Sprintf("-t:%d", timeoutMs)}
+		args = []string{"-in", fmt.Sprintf("-t:%d", timeoutMs), "model=true"}
 	}
 	cmd := exec.Command(bin, args...)
 	cmd.Stdin = strings.NewReader(script)
@@ -392,12 +433,18 @@ func RunScript(bin string, script string, timeoutMs int) Res {
 		l = strings.TrimSpace(l)
 		switch {
 		case l == "sat":
-			res = Sat
+			return Sat, string(out)
 		case l == "unsat":
-			res = Unsat
+			return Unsat, string(out)
+		case l == "unknown":
+			return Unknown, string(out)
 		case strings.HasPrefix(l, "(error"):
-			return Unknown
+			// an error before the verdict makes the verdict unusable
+			return Unknown, string(out)
 		}
 	}
-	return res
+	return res, string(out)
 }
+
+// Vars returns the variables declared in this session.
+func (s *Solver) Vars() []*Term { return s.vars }
